@@ -721,6 +721,7 @@ def gen_kernel_cases(tier, seed):
     out = []
     ext = [0, 1, 2, 3]
     # COO (R x K) @ dense (K x C): coords sorted by row
+    nzc = 0
     for R, K, C in itertools.product(ext, ext, ext):
         for _ in range(2 if tier == "quick" else 5):
             cells = [(r, k) for r in range(R) for k in range(K) if rng.random() < 0.6]
@@ -728,8 +729,11 @@ def gen_kernel_cases(tier, seed):
             cols = [c[1] for c in cells]
             data = [rng.choice([-2, -1, 1, 2, 3]) for _ in cells]
             arr2 = [[rng.choice([-1, 0, 1, 2]) for _ in range(K)] for _ in range(C)]
-            out.append({"k": "dcn", "rows": rows, "cols": cols, "data": data, "arr2": arr2, "R": R, "C": C, "K": K})
-            out.append({"k": "dcns", "rows": rows, "cols": cols, "data": data, "arr2": arr2, "R": R, "C": C, "K": K})
+            zero_cols = C == 0 and bool(data)     # the class that hung before the repair of D3: a regression costs the watchdog per case
+            if not (tier == "quick" and zero_cols and nzc >= 2):
+                out.append({"k": "dcn", "rows": rows, "cols": cols, "data": data, "arr2": arr2, "R": R, "C": C, "K": K})
+                out.append({"k": "dcns", "rows": rows, "cols": cols, "data": data, "arr2": arr2, "R": R, "C": C, "K": K})
+                nzc += 1 if zero_cols else 0
             # dense (R x K) @ COO (K x C): the kernel receives coords2 = (k, c) [dense result] or the transpose's
             cells2 = sorted((k, c) for k in range(K) for c in range(C) if rng.random() < 0.6)
             arr1 = [[rng.choice([-1, 0, 1, 2]) for _ in range(K)] for _ in range(R)]
@@ -1001,11 +1005,14 @@ def kernel_lit(c, r):
 
 
 # ------------------------------------------------------------------ campaign
-def run_watchdogged(fname, cases, group_of):
+def run_watchdogged(fname, cases, group_of, kind_of):
     """run the cases in worker processes: 3 op-families x 2 workers (so that every Numba kernel is
-    JIT-compiled in 2 processes, not 6), first under the 40 s watchdog; every case that did not come
-    back is run again alone-ish under a 120 s watchdog (a cold worker may spend tens of seconds in the
-    JIT compiler on a loaded machine): only a case that fails to return TWICE is a hang."""
+    JIT-compiled in 2 processes, not 6), first under the 40 s watchdog; a case that did not come back
+    is run again in a fresh worker under a 120 s watchdog (a cold worker may spend tens of seconds in the
+    JIT compiler on a loaded machine): only a case that fails to return TWICE is a hang.  To bound the
+    cost of a regression that makes a whole class hang, at most two suspects per operation are re-run
+    first; the others of that operation are re-run only if those two came back (otherwise they are
+    reported as hangs of the same class without confirmation)."""
     import threading
     groups = {}
     for i, c in enumerate(cases):
@@ -1024,7 +1031,20 @@ def run_watchdogged(fname, cases, group_of):
     suspects = [i for i, r in enumerate(res) if r is None or r.get("hang")]
     first_pass_suspects = len(suspects)
     if suspects:
-        work(suspects, RETRY_WATCHDOG, 6)
+        by_kind = {}
+        for i in suspects:
+            by_kind.setdefault(kind_of(cases[i]), []).append(i)
+        probe = [i for idx in by_kind.values() for i in idx[:2]]
+        work(probe, RETRY_WATCHDOG, 6)
+        rest = []
+        for idx in by_kind.values():
+            if any(res[i] is None or res[i].get("hang") for i in idx[:2]):
+                for i in idx[2:]:
+                    res[i] = {"hang": True, "unconfirmed": True}
+            else:
+                rest += idx[2:]
+        if rest:
+            work(rest, RETRY_WATCHDOG, 6)
     return res, first_pass_suspects
 
 
@@ -1045,9 +1065,9 @@ def campaign(build, tier, seed, report, budget=1):
     kcases = gen_kernel_cases(tier, seed)
     import time
     t0 = time.time()
-    res, sus1 = run_watchdogged("impl_case", cases, api_group)
+    res, sus1 = run_watchdogged("impl_case", cases, api_group, lambda c: c["op"])
     t1 = time.time()
-    kres, sus2 = run_watchdogged("impl_kernel", kcases, lambda c: 0 if c["k"] in ("dcn", "dcns", "dnc", "dncs") else 1)
+    kres, sus2 = run_watchdogged("impl_kernel", kcases, lambda c: 0 if c["k"] in ("dcn", "dcns", "dnc", "dncs") else 1, lambda c: c["k"])
     t2 = time.time()
     report["notes"].append(f"{sus1 + sus2} cases exceeded the {4 * WATCHDOG:.0f} s watchdog in the first pass and were re-run under 120 s; "
                            f"implementation side: API {t1 - t0:.0f} s, kernels {t2 - t1:.0f} s")
@@ -1107,7 +1127,30 @@ def campaign(build, tier, seed, report, budget=1):
         lits.append(vpair(vZ(orc), zl(sh), zl(flat), vbool(al), model_of(c), vZ(status), impl_lit))
         keep.append(i)
 
-    bad = build.judge("c18_api", "From Verif Require Import Py NpValid Validators COO GCXS SArr C18Judge.", "api_case", "judge_api", lits)
+    try:
+        bad = build.judge("c18_api", "From Verif Require Import Py NpValid Validators COO GCXS SArr C18Judge.", "api_case", "judge_api", lits)
+    except vlib.CoqEvalError:
+        # the Coq side does not build (a proof obligation broke, e.g. a generated fragment changed): a hang or a
+        # dead worker is a failing input whatever the model says, so report those before giving up
+        fb = []
+        for i, (c, r) in enumerate(zip(cases, res, strict=True)):
+            st = 1 if (r is None or r.get("hang") or (r.get("impl") or {}).get("hang")) else 2 if (r and ("crash" in r or "crash" in (r.get("impl") or {}))) else 0
+            if st:
+                fb.append({"property": "C18", "op": OP_FAMILY.get(c["op"], c["op"]), "api": c["op"], "kind": "value",
+                           "clause": ("hang:" if st == 1 else "interpreter_crash:") + c["op"], "code": 10 if st == 1 else 11,
+                           "case": _short(c), "impl": {"hang": True} if st == 1 else {"crash": True}, "oracle": None,
+                           "note": "verdict without Coq: the judge modules did not build", "replay_py": replay_line(_strip(c))})
+        for c, r in zip(kcases, kres, strict=True):
+            st = 1 if (r is None or r.get("hang")) else 2 if "crash" in r else 0
+            if st:
+                fb.append({"property": "C18", "op": "kernel:" + c["k"], "kind": "value", "clause": ("hang:kernel:" if st == 1 else "interpreter_crash:kernel:") + c["k"],
+                           "code": 10 if st == 1 else 11, "case": c, "impl": r, "note": "verdict without Coq: the judge modules did not build",
+                           "replay_py": ("import sys; sys.path.insert(0, '/verif/tools'); import json, props.c18 as m; "
+                                         f"print(m.impl_kernel(json.loads({json.dumps(json.dumps(c))})))")})
+        if fb:
+            report["notes"].append("Coq evaluation unavailable; reporting the hangs / crashes observed on the implementation side")
+            return fb
+        raise
     # cross-check of the Python-side GCXS well-formedness predicate against Model/GCXS.v:gcxs_wfb
     gl = [c for c in cases if "_gcxs_lit" in c]
     if gl:
